@@ -53,6 +53,7 @@ class Planner:
         self.exprs = []  # interesting expression slots (for pools)
         self.dicts = []
         self.fam = cfg.get("families", {})
+        self.poisoned = False
 
     # ---------------------------------------------------------------- emission
     def new(self):
@@ -67,11 +68,18 @@ class Planner:
         """Execute op in the planner's node; record it if it succeeds."""
         r = self.node.run(op)
         ok = "ok" in r
+        # an op may corrupt its inputs (that is what the checks look for); the planner
+        # must not build on a corrupted object, so generation stops after such an op
+        for s_ in self.refs_of(op[2:]) + ([op[1]] if len(op) > 1 and isinstance(op[1], int) else []):
+            o_ = self.node.slots.get(s_)
+            if isinstance(o_, (Expr, Form)) and simops.is_cyclic(o_):
+                self.poisoned = True
+                ok = True  # keep the op: the nodes have to execute it
         if ok or keep_failed:
             self.ops.append(op)
             self.stats["emitted"] += 1
             out = op[1] if len(op) > 1 and isinstance(op[1], int) else None
-            if ok and out is not None and out in self.node.slots:
+            if ok and out is not None and out in self.node.slots and not self.poisoned:
                 self.info[out] = self.describe(self.node.slots[out], kind)
         else:
             self.stats["rejected"] += 1
@@ -913,7 +921,13 @@ class Planner:
                 return out
             return None
         # build a new expression on top (shares the DAG)
-        f = r.choice(["operator.neg", "ufl.algebra.Abs", "ufl.grad", "ufl.transpose", "ufl.variable", "ufl.conj"])
+        if r.random() < 0.35:
+            # idempotent-looking re-application of the root operator (constructors that
+            # simplify by returning an existing object)
+            out = self.call("sim.ops.reapply_root", E, keep_failed=False)
+            if out is not None:
+                return out
+        f = r.choice(["operator.neg", "ufl.algebra.Abs", "ufl.grad", "ufl.transpose", "ufl.variable", "ufl.conj", "ufl.real", "ufl.imag", "ufl.sym", "ufl.algebra.Abs"])
         return self.call(f, E, keep_failed=False)
 
     def form_step(self, f, rank, M, kf):
@@ -1000,6 +1014,8 @@ class Planner:
         abort_p = self.cfg.get("abort_p", 0.5)
         marks = []  # op index where each step starts + its input slots
         for _ in range(nsteps):
+            if self.poisoned:
+                break
             kf = r.random() < abort_p
             start = len(self.ops)
             if self.forms and (r.random() < 0.6 or not self.exprs):
@@ -1286,6 +1302,66 @@ class Planner:
                     pairs.append([lits[i], lits[j], "lit"])
         return nd, pairs, lits
 
+    def base_form_operators(self):
+        """ExternalOperator / Interpolate nodes (expressions that carry non-operand data:
+        derivatives, function space, argument slots) nested inside ordinary operators,
+        with twins that differ only in that data."""
+        r = self.rng
+        pairs, pool = [], []
+        for M in self.meshes[:1]:
+            scal = [c for c in M["coefs"] if self.shape(c) == ()]
+            if not scal:
+                continue
+            u = r.choice(scal)
+            V = self._space_of(u)
+            others = [sp for sp in M["spaces"] if sp != V and tuple(self.obj(sp).value_shape) == ()]
+            base = self.call("ufl.ExternalOperator", self.ref(u), function_space=self.ref(V))
+            if base is None:
+                continue
+            variants = [("bfo:same", {"function_space": self.ref(V)}), ("bfo:derivatives", {"function_space": self.ref(V), "derivatives": ["t", 1]})]
+            if others:
+                variants.append(("bfo:space", {"function_space": self.ref(r.choice(others))}))
+            if len(scal) > 1:
+                # a valid second argument slot: (Coargument(V*, 0), coefficient)
+                dual = self.new()
+                if self.emit(["meth", dual, self.ref(V), "dual", []], kind="space"):
+                    coarg = self.call("ufl.Coargument", self.ref(dual), 0, kind="arg")
+                    if coarg is not None:
+                        variants.append(("bfo:slots", {"function_space": self.ref(V), "argument_slots": ["t", self.ref(coarg), self.ref(scal[-1] if scal[-1] != u else scal[0])]}))
+            wrap = r.choice(["ufl.sin", "operator.neg", "ufl.algebra.Abs", "mul"])
+
+            def wrapped(x):
+                if wrap == "mul":
+                    return self.call("operator.mul", self.ref(u), self.ref(x))
+                return self.call(wrap, self.ref(x))
+
+            wb = wrapped(base)
+            pool += [base] + ([wb] if wb is not None else [])
+            for tag, kw in variants:
+                t = self.call("ufl.ExternalOperator", self.ref(u), **kw)
+                if t is None:
+                    continue
+                pool.append(t)
+                pairs.append([base, t, tag])
+                wt = wrapped(t)
+                if wt is not None and wb is not None:
+                    pool.append(wt)
+                    pairs.append([wb, wt, tag + ":nested"])
+            if r.random() < 0.6:
+                i1 = self.call("ufl.Interpolate", self.ref(u), self.ref(V))
+                if i1 is not None:
+                    pool.append(i1)
+                    for tag, args in [("bfo:interp-same", [self.ref(u), self.ref(V)])] + ([("bfo:interp-space", [self.ref(u), self.ref(others[0])])] if others else []) + ([("bfo:interp-expr", [self.ref(scal[-1]), self.ref(V)])] if len(scal) > 1 and scal[-1] != u else []):
+                        i2 = self.call("ufl.Interpolate", *args)
+                        if i2 is not None:
+                            pool.append(i2)
+                            pairs.append([i1, i2, tag])
+                            a, b = self.call("ufl.sin", self.ref(i1)), self.call("ufl.sin", self.ref(i2))
+                            if a is not None and b is not None:
+                                pool += [a, b]
+                                pairs.append([a, b, tag + ":nested"])
+        return pairs, pool
+
     def c13_program(self):
         r = self.rng
         self.cfg.setdefault("n_steps", r.randint(0, 5))
@@ -1305,6 +1381,10 @@ class Planner:
                     self.info[o] = self.describe(self.node.slots[o])
                     pool.append(o)
         nd, pairs, lits = self.terminal_neardups()
+        if r.random() < self.cfg.get("bfo_p", 0.3):
+            bp, bpool = self.base_form_operators()
+            pairs += bp
+            pool += bpool
         prod = self.producers()
         targets = [e for e in self.exprs if e in prod] + [f[0] for f in self.forms if f[0] in prod]
         for _ in range(self.cfg.get("n_twins") or r.randint(3, 10)):
